@@ -74,8 +74,59 @@ def correspondence(ctx, corr):
             corr.disagree('part_check', {'unmatched': outs, 'stdout': out, 'eval': repr(ev), 'want': want, 'flags': fl}, m, r)
 
 
+def _spec_part_check(inp):
+    """the property sentence, evaluated with the independent re-implementation of the matching relation
+    (harness/oracle/checker_spec.py): the want is satisfied iff it matches some trailing portion of the
+    output since the previous want, or the repr of the value. Returns True/False, or None when the value's repr raises"""
+    from ..oracle import checker_spec
+    names = ['ELLIPSIS', 'NORMALIZE_WHITESPACE', 'IGNORE_WHITESPACE', 'NORMALIZE_REPR', 'DONT_ACCEPT_BLANKLINE']
+    flags = dict((n, c == '1') for n, c in zip(names, inp['flags']))
+    outs = list(inp['unmatched']) + [inp['stdout']]
+    cands = [''.join(outs[i:]) for i in range(len(outs))]
+    ev = inp['eval']
+    if ev == "'BAD'":
+        return None
+    if ev != 'None':
+        cands.append(ev)
+    if not inp['stdout'] and ev != 'None':
+        cands = [ev] + [c for c in cands[:-1]]
+    return any(checker_spec.check_output(c, inp['want'], **flags) for c in cands)
+
+
+def _real_part_check(inp):
+    from xdoctest import doctest_part, checker, directive, constants
+    import ast as _ast
+    names = ['ELLIPSIS', 'NORMALIZE_WHITESPACE', 'IGNORE_WHITESPACE', 'NORMALIZE_REPR', 'DONT_ACCEPT_BLANKLINE', 'IGNORE_EXCEPTION_DETAIL']
+    rs = directive.RuntimeState(dict((n, c == '1') for n, c in zip(names, inp['flags'])))
+    part = doctest_part.DoctestPart(['x'], want_lines=inp['want'].split('\n'))
+    ev = inp['eval']
+    got_eval = constants.NOT_EVALED if ev == 'None' else _ast.literal_eval(ev)
+    try:
+        part.check(inp['stdout'], got_eval, rs, unmatched=list(inp['unmatched']))
+        return True
+    except checker.GotWantException:
+        return False
+
+
 def search(ctx, corr, broken):
-    return common.search_families(ctx, corr, [('c02_exhaustive', {'maxlen': 2}), ('c02_random', {'count': 400})])
+    hits = common.search_families(ctx, corr, [('c02_exhaustive', {'maxlen': 2}), ('c02_random', {'count': 400})])
+    # unit-level disagreements: decide with the independent specification which side is wrong
+    for d in corr.disagreements:
+        if d['suite'] != 'part_check':
+            continue
+        inp = d['input']
+        try:
+            exp = _spec_part_check(inp)
+            if exp is None:
+                continue
+            real = _real_part_check(inp)
+        except Exception:
+            continue
+        if real != exp:
+            hits.append({'kind': 'part_check', 'suite': 'part_check', 'input': inp, 'expected': exp, 'impl': real,
+                         'why': 'DoctestPart.check says %s; by the property sentence (some trailing portion of the output since the '
+                                'previous want, or the value repr, matches under the enabled normalisations) it is %s' % (real, exp)})
+    return hits
 
 
 def classify(ctx, hit):
@@ -87,4 +138,8 @@ def replay_finding(ctx, finding):
 
 
 def replay(ctx, failing):
+    if failing.get('kind') == 'part_check':
+        real = _real_part_check(failing['input'])
+        print('DoctestPart.check(%r) -> %s, expected %s' % (failing['input'], real, failing['expected']))
+        return real != failing['expected']
     return common.replay_scenario(failing)
